@@ -11,7 +11,7 @@
      good_leaves t  every leaf carries a taxon and no taxon sits on two leaves
    Lengths are integers in units of 2^-10 (None = Python None, counted as 0). *)
 From Coq Require Import ZArith QArith List Bool.
-From DV Require Import Model.PyPrims Model.Tree Model.C14Model Model.C14Spec Proofs.C14Proofs Proofs.C14Means Proofs.C14Clu Proofs.C14Upgma Proofs.C14Nj Proofs.C14Ultra.
+From DV Require Import Model.PyPrims Model.Tree Model.C14Model Model.C14Spec Model.C14Spec2 Model.C14Csv Proofs.C14Proofs Proofs.C14Means Proofs.C14Clu Proofs.C14Upgma Proofs.C14Nj Proofs.C14Ultra Proofs.C14Uniq Proofs.C14UpgmaFull Proofs.C14CsvProofs Proofs.C14Qcrit.
 Import ListNotations.
 Open Scope Z_scope.
 
@@ -386,3 +386,138 @@ Example qcriterion_nonvacuous :
   qcrit_cherry (fun pool => (length pool <= 3)%nat) /\ qcrit_closed (fun pool => (length pool <= 3)%nat).
 Proof. exact small_pools_qcrit. Qed.
 Print Assumptions qcriterion_nonvacuous.
+
+(* ======================================================================================== *)
+(* SECOND WAVE                                                                              *)
+(* ======================================================================================== *)
+(* Uniqueness of dendrograms (Model/C14Spec2.v: dendro strict h t = t is a rooted binary tree, all
+   leaves carrying taxa and lying at distance h below the root, non-negative edge lengths, and -- when
+   strict -- a positive edge above every internal child).  A strict dendrogram is determined, up to
+   node ids, child order and the representation of the rationals (qsame), by its leaf-to-leaf path
+   distances: any dendrogram T2 (strict or not) on the same taxa with the same distances is the same
+   tree, and has the same height.  Proof: the two root subtrees are the two classes of "distance below
+   twice the height"; recurse. *)
+Theorem dendrogram_unique : forall T1 T2 h1 h2,
+  dendro true h1 T1 -> dendro false h2 T2 -> NoDup (qtaxa T1) -> NoDup (qtaxa T2) ->
+  (forall x, qhas x T1 = qhas x T2) ->
+  (forall x y, qhas x T1 = true -> qhas y T1 = true -> x <> y ->
+     exists q1 q2, qdist T1 x y = Some q1 /\ qdist T2 x y = Some q2 /\ (q1 == q2)%Q) ->
+  qsame (q_unroot T1) (q_unroot T2) /\ (h1 == h2)%Q.
+Proof. exact (fun T1 T2 h1 h2 => dendro_unique (qsize T1) T1 (le_n _) T2 h1 h2). Qed.
+Print Assumptions dendrogram_unique.
+
+(* The tree UPGMA returns on a non-negative three-point matrix is a dendrogram on exactly the taxa
+   iterated, realising the matrix (for a polytomous generating tree it is a BINARY RESOLUTION: some
+   internal edges have length zero, see upgma_polytomy_example; what is proved for polytomies is
+   this theorem and upgma_recovers_ultrametric_tree_partial -- same taxa, same distances, ultrametric,
+   binary, non-negative lengths -- not that contracting the zero-length edges gives the polytomy) *)
+Theorem upgma_output_is_dendrogram : forall M order,
+  NoDup order -> order <> [] -> mcomplete M order -> msymmetric M order -> ultrametric3 M order ->
+  mnonneg M order ->
+  exists T H, upgma_tree M order = Ok T /\ dendro false H T /\ NoDup (qtaxa T) /\
+    (forall a, qhas a T = true <-> In a order) /\
+    (forall a b, In a order -> In b order -> a <> b ->
+       exists q, qdist T a b = Some q /\ (q == mval M a b)%Q).
+Proof. exact upgma_dendrogram_l. Qed.
+Print Assumptions upgma_output_is_dendrogram.
+
+Example upgma_polytomy_example :
+  (do p <- compile_from_tree ex_star ;; upgma_tree (qtable p true) [0; 1; 2])
+  = Ok (QT 4 None None
+           [QT 2 (Some 2) (Some 1%Q) [];
+            QT 3 None (Some 0%Q) [QT 0 (Some 0) (Some 1%Q) []; QT 1 (Some 1) (Some 1%Q) []]]).
+Proof. exact ex_star_upgma. Qed.
+Print Assumptions upgma_polytomy_example.
+
+(* UPGMA RECOVERS THE ROOTED TREE (full): for every BINARY rose tree t with distinct leaf taxa,
+   non-negative lengths, a positive edge above every internal node other than the root, and all
+   leaves at the same distance from the root, and for every iteration order of its taxa, upgma_tree
+   applied to t's distance matrix returns t itself -- up to node ids, the order of the two children
+   of each node, the representation of the rational lengths (missing lengths counting as zero) and
+   the length stored on the root (tq t = t with lengths in real units). *)
+Theorem upgma_recovers_ultrametric : forall t p h order,
+  rbin t -> good_leaves t -> t_kids t <> [] -> positive_internal t -> nonneg_lengths t -> equidistant h t ->
+  compile_from_tree t = Ok p ->
+  NoDup order -> (forall a, In a order <-> In (Some a) (leaf_taxa t)) ->
+  exists T, upgma_tree (qtable p true) order = Ok T /\ qsame_rooted (tq t) T.
+Proof. exact upgma_recovers_ultrametric_l. Qed.
+Print Assumptions upgma_recovers_ultrametric.
+
+Example upgma_recovers_nonvacuous :
+  rbin ex_ultra /\ positive_internal ex_ultra /\
+  good_leaves ex_ultra /\ t_kids ex_ultra <> [] /\ nonneg_lengths ex_ultra /\ equidistant 3072 ex_ultra.
+Proof. exact (conj (proj1 ex_ultra_binary) (conj (proj2 ex_ultra_binary) ex_ultra_ok)). Qed.
+Print Assumptions upgma_recovers_nonvacuous.
+
+(* ---------------------------------------------------------------------------------------- *)
+(* CSV round trip (Model/C14Csv.v: line-level model of write_csv and from_csv with the default
+   header options, any delimiter d; strings = lists of code points; `cell a b` is the string written
+   for the entry (a, b), `val a b` the number it denotes; `lower` is str.lower).
+   If no label and no cell contains the delimiter, a quote, CR or LF, none has leading or trailing
+   blanks, every cell is a decimal numeral, and the labels are pairwise different ignoring case (the
+   reader's namespace is case-insensitive), then from_csv applied to the lines produced by write_csv
+   succeeds, yields the taxa in the order written (taxon i = i-th row) and the dictionary whose entry
+   (i, j) is: 0 on the diagonal, the written entry (row i, column j) above it, and its mirror image
+   below -- i.e. exactly the written table whenever that is symmetric with a zero diagonal, as every
+   table compiled from a tree is (pdm_sym, pdm_zero_diag).  The column header line is not compared
+   with the row names by the reader (positions decide). *)
+Theorem csv_roundtrip : forall (d : Z) (label : Z -> str) (cell : Z -> Z -> str) (val : Z -> Z -> Q)
+                               (lower : str -> str) (order : list Z),
+  (d =? 34) || (d =? 13) || (d =? 10) = false ->
+  (forall a, In a order -> ~ In d (label a) /\ has_quote (label a) = false /\ strip_sp (label a) = label a) ->
+  (forall a b, In a order -> In b order ->
+     (~ In d (cell a b) /\ has_quote (cell a b) = false /\ strip_sp (cell a b) = cell a b) /\
+     parse_float (cell a b) = Some (val a b)) ->
+  NoDup (map (fun a => lower (label a)) order) ->
+  order <> [] ->
+  exists T, from_csv lower d (write_csv d label cell order) = Ok (map label order, T) /\
+    forall i j, (i < length order)%nat -> (j < length order)%nat ->
+      tget2 (Z.of_nat i) (Z.of_nat j) T =
+      Some (if Nat.eqb i j then 0%Q
+            else if Nat.ltb i j then val (nth i order 0) (nth j order 0) else val (nth j order 0) (nth i order 0)).
+Proof. exact csv_roundtrip_l. Qed.
+Print Assumptions csv_roundtrip.
+
+Theorem csv_roundtrip_no_taxa : forall lower d label cell,
+  from_csv lower d (write_csv d label cell []) = Ok ([], []).
+Proof. exact csv_roundtrip_empty. Qed.
+Print Assumptions csv_roundtrip_no_taxa.
+
+Example csv_roundtrip_example :
+  from_csv (fun x => x) 44 (write_csv 44 ex_lab ex_cell [2; 0; 1])
+  = Ok ([[67]; [65]; [66]],
+        [(0, [(0, 0%Q); (1, 7 # 2); (2, 9 # 2)]);
+         (1, [(1, 0%Q); (2, 5 # 2); (0, 7 # 2)]);
+         (2, [(2, 0%Q); (0, 9 # 2); (1, 5 # 2)])]).
+Proof. exact ex_csv. Qed.
+Print Assumptions csv_roundtrip_example.
+
+(* ---------------------------------------------------------------------------------------- *)
+(* THE Q-CRITERION, up to five nodes.  Class P5 of pools: at most five nodes whose stored distances
+   satisfy the strictly resolved four-point condition (four_point_strict: in every quartet one of the
+   three pairings has the strictly smallest sum and the other two sums are equal -- a tree metric
+   whose internal edges are positive).  For this class both halves of the Q-criterion hold:
+   every pair minimising Q is a cherry (n = 3: any pair; n = 4, 5: by exhaustive analysis of the
+   quartet resolutions, linear arithmetic), and joining it leaves a pool of the class (the reduced
+   distances are the old ones shifted by the pendant length, so every quartet keeps its resolution --
+   this half is proved without the size bound, given the first half). *)
+Theorem q_criterion_up_to_five : qcrit_cherry P5 /\ qcrit_closed P5.
+Proof. exact (conj P5_cherry P5_closed). Qed.
+Print Assumptions q_criterion_up_to_five.
+
+(* Hence, UNCONDITIONALLY for at most five taxa: on every complete symmetric matrix satisfying the
+   strictly resolved four-point condition, in every iteration order and with every tie-break,
+   nj_tree returns a tree whose path distance between any two taxa is the matrix entry
+   (PDM(NJ(M)) = M; the lengths assigned at each join are the exact pendant lengths by
+   nj_step_sound).  For more than five taxa nj_recovers_additive_partial remains an implication from
+   the Q-criterion: the general lemma (Studier-Keppler) is NOT proved.  Also not proved: that the
+   matrix of a binary rose tree with positive internal edge lengths satisfies mfour_point_strict, and
+   that a tree is determined by its (unrooted) metric -- recovery of unrooted splits with their
+   lengths is checked by the correspondence oracle only. *)
+Theorem nj_recovers_additive_up_to_five_taxa : forall M order,
+  NoDup order -> order <> [] -> (length order <= 5)%nat ->
+  mcomplete M order -> msymmetric M order -> mfour_point_strict M order ->
+  exists T, nj_tree M order = Ok T /\
+    forall a b, In a order -> In b order -> a <> b -> exists q, qdist T a b = Some q /\ (q == mval M a b)%Q.
+Proof. exact nj_recovers_small_l. Qed.
+Print Assumptions nj_recovers_additive_up_to_five_taxa.
